@@ -132,8 +132,9 @@ pub enum Step {
     Restart,
     Reorg(RTarget),
     Bad(BadSpec),
-    /// a read request (never changes the automaton)
-    Read { method: String, params: Value },
+    /// a read request (never changes the automaton); `boundary_only`: skipped while a block is open
+    /// (simulations wait up to 5 s for the block to be finalised)
+    Read { method: String, params: Value, boundary_only: bool },
 }
 
 #[derive(Clone, Debug, PartialEq, Eq)]
@@ -240,6 +241,8 @@ pub struct World {
     pub zero_hash: bool,
     pub trace: Vec<(Call, String)>,
     pub keep_trace: bool,
+    /// an injected out-of-protocol call was accepted: the automaton no longer describes the instance
+    pub desync: bool,
 }
 
 pub fn gen_hash(height: u64) -> String {
@@ -271,6 +274,7 @@ impl World {
             zero_hash: false,
             trace: Vec::new(),
             keep_trace: false,
+            desync: false,
         }
     }
 
@@ -397,7 +401,11 @@ impl World {
                 self.note(&call, &out);
                 // the Bitcoin-RPC failure after genesis creation is the statement's exclusion
                 let env_err = out.err_msg().map(|m| m.starts_with("Bitcoin RPC status check failed")).unwrap_or(false);
-                let growth = self.h.is_none() && self.open.is_none();
+                // "can be called before or after brc20_mine": the genesis block is the next block
+                let growth = self.count() == 0;
+                if growth && !(out.is_ok() || env_err) {
+                    self.record_growth(&call, &out);
+                }
                 if growth && (out.is_ok() || env_err) {
                     self.record_growth(&call, &out);
                     // initialise adds the deploy tx and finalises: close the block with no separate call
@@ -520,11 +528,23 @@ impl World {
             }
             Step::Bad(b) => {
                 let (call, expect) = self.bad_call(b);
+                if call.method == "<skip>" {
+                    return StepOut { step: step.clone(), call, outcome: CallOutcome::Resp(json!({"error": {"message": "skipped"}})), expect: Expect::Any, growth: false };
+                }
                 let out = inst.call(&call.method, call.params.clone());
                 self.note(&call, &out);
+                let env_err = out.err_msg().map(|m| m.starts_with("Bitcoin RPC status check failed")).unwrap_or(false);
+                if out.is_ok() || env_err {
+                    // an out-of-protocol call that was accepted is not modelled by the automaton
+                    self.desync = true;
+                }
                 StepOut { step: step.clone(), call, outcome: out, expect, growth: false }
             }
-            Step::Read { method, params } => {
+            Step::Read { method, params, boundary_only } => {
+                if *boundary_only && self.count() != 0 {
+                    let call = Call { method: "<skip>".into(), params: json!([]) };
+                    return StepOut { step: step.clone(), call, outcome: CallOutcome::Resp(json!({"error": {"message": "skipped"}})), expect: Expect::Any, growth: false };
+                }
                 let call = Call { method: method.clone(), params: params.clone() };
                 let out = inst.call(&call.method, call.params.clone());
                 StepOut { step: step.clone(), call, outcome: out, expect: Expect::Any, growth: false }
@@ -542,6 +562,8 @@ impl World {
     }
 
     fn bad_call(&mut self, b: &BadSpec) -> (Call, Expect) {
+        #[allow(non_snake_case)]
+        let SKIP: (Call, Expect) = (Call { method: "<skip>".into(), params: json!([]) }, Expect::Any);
         let (ts, sent, _stored) = self.block_params();
         let count = self.count();
         let sel = |s: &IdxSel| -> Option<u64> {
@@ -557,13 +579,18 @@ impl World {
                 Some(i) => (self.tx_call(tx, i, ts, &sent), Expect::MustReject),
                 None => (Call { method: "<skip>".into(), params: json!([]) }, Expect::Any),
             },
+            // without a block under construction these are ordinary valid calls, not violations
             BadSpec::TxTimestamp { tx } => {
-                let e = if self.open.is_some() { Expect::MustReject } else { Expect::Any };
-                (self.tx_call(tx, count, ts + 1, &sent), e)
+                if self.open.is_none() {
+                    return SKIP.clone();
+                }
+                (self.tx_call(tx, count, ts + 1, &sent), Expect::MustReject)
             }
             BadSpec::TxHash { tx } => {
-                let e = if self.open.is_some() { Expect::MustReject } else { Expect::Any };
-                (self.tx_call(tx, count, ts, &other_hash), e)
+                if self.open.is_none() {
+                    return SKIP.clone();
+                }
+                (self.tx_call(tx, count, ts, &other_hash), Expect::MustReject)
             }
             BadSpec::TxExistingHash { tx, height } => match self.hash_of_height(*height) {
                 Some(hh) if self.open.is_none() => (self.tx_call(tx, count, ts, &hh), Expect::MustReject),
@@ -574,20 +601,29 @@ impl World {
                 None => (Call { method: "<skip>".into(), params: json!([]) }, Expect::Any),
             },
             BadSpec::FinTimestamp => {
-                let e = if self.open.is_some() { Expect::MustReject } else { Expect::Any };
+                if self.open.is_none() {
+                    return SKIP.clone();
+                }
+                let e = Expect::MustReject;
                 (Call { method: "brc20_finaliseBlock".into(), params: json!({"timestamp": ts + 1, "hash": sent, "block_tx_count": count}) }, e)
             }
             BadSpec::FinHash => {
-                let e = if self.open.is_some() { Expect::MustReject } else { Expect::Any };
+                if self.open.is_none() {
+                    return SKIP.clone();
+                }
+                let e = Expect::MustReject;
                 (Call { method: "brc20_finaliseBlock".into(), params: json!({"timestamp": ts, "hash": other_hash, "block_tx_count": count}) }, e)
             }
             BadSpec::FinExistingHash { height } => match self.hash_of_height(*height) {
                 Some(hh) if self.open.is_none() => (Call { method: "brc20_finaliseBlock".into(), params: json!({"timestamp": ts, "hash": hh, "block_tx_count": count}) }, Expect::MustReject),
                 _ => (Call { method: "<skip>".into(), params: json!([]) }, Expect::Any),
             },
-            BadSpec::CommitWhileOpen => (Call { method: "brc20_commitToDatabase".into(), params: json!([]) }, if count != 0 { Expect::MustReject } else { Expect::Any }),
-            BadSpec::ReorgWhileOpen => (Call { method: "brc20_reorg".into(), params: json!([self.h.unwrap_or(0).saturating_sub(1)]) }, if count != 0 { Expect::MustReject } else { Expect::Any }),
-            BadSpec::MineWhileOpen => (Call { method: "brc20_mine".into(), params: json!([1, ts]) }, Expect::Any),
+            BadSpec::CommitWhileOpen if count == 0 => SKIP.clone(),
+            BadSpec::ReorgWhileOpen if count == 0 => SKIP.clone(),
+            BadSpec::MineWhileOpen if count == 0 => SKIP.clone(),
+            BadSpec::CommitWhileOpen => (Call { method: "brc20_commitToDatabase".into(), params: json!([]) }, Expect::MustReject),
+            BadSpec::ReorgWhileOpen => (Call { method: "brc20_reorg".into(), params: json!([self.h.unwrap_or(0).saturating_sub(1)]) }, Expect::MustReject),
+            BadSpec::MineWhileOpen => (Call { method: "brc20_mine".into(), params: json!([1, ts]) }, Expect::MustReject),
             BadSpec::BothEncodings { tx } => {
                 let mut c = self.tx_call(tx, count, ts, &sent);
                 add_other_encoding(&mut c);
@@ -599,7 +635,10 @@ impl World {
                 (c, Expect::MustReject)
             }
             BadSpec::InitMismatch => {
-                let e = if self.hash_of_height(0).is_some() { Expect::MustReject } else { Expect::Any };
+                if self.hash_of_height(0).is_none() {
+                    return SKIP.clone();
+                }
+                let e = Expect::MustReject;
                 (Call { method: "brc20_initialise".into(), params: json!({"genesis_hash": other_hash, "genesis_timestamp": 1, "genesis_height": 0}) }, e)
             }
             BadSpec::InitMissingParent => {
